@@ -54,7 +54,7 @@ bool hexdump_bytes(std::ostream& os, size_t pos, size_t stride,
 	  // TODO: generate a test file which verifies that all the
 	  // members of the character set are correctly characterised as
 	  // being printed directly or as '.'.
-	  if (ch == ' ' || isgraph(ch))
+	  if (ch == ' ' || isgraph(static_cast<unsigned char>(ch)))
 	    os << ch;
 	  else
 	    os << '.';
